@@ -52,10 +52,7 @@ theorem scratch_eq_pad [Semiring K] (fs : List (Fld K)) (W0 W1 S0 S1 : Int) (scr
   unfold fftGrid
   -- scratch path: zero corner plus the sum of the embeddings
   rw [foldInsert_get fs (zeroedCorner scr S0 S1) i j hi hj]
-  have hz : (zeroedCorner scr S0 S1).get i j = 0 := by
-    have : (decide (0 ≤ i) && decide (i < S0) && decide (0 ≤ j) && decide (j < S1)) = true := by
-      simp only [Bool.and_eq_true, decide_eq_true_eq]; omega
-    simp only [zeroedCorner, this, if_true]
+  have hz : (zeroedCorner scr S0 S1).get i j = 0 := zeroedCorner_get scr S0 S1 i j hi hj
   rw [hz, zero_add]
   show _ = (padTo (wavefrontField 1 fs W0 W1) S0 S1).get i j
   have hs0 : (wavefrontField 1 fs W0 W1).s0 = W0 := hshape.1
